@@ -114,6 +114,18 @@ def check_sub(out, it, v, want, tag, what):
     return True
 
 
+def check_example(out, it, v, items, pos, tag):
+    """The example statement must bind an existing subarray: the one its comment names, or - if the comment could not be located - any."""
+    if pos is not None:
+        return check_sub(out, it, v, items[pos - 1], tag, 'example sa')
+    for w in items:
+        probe = Outcome()
+        if check_sub(probe, it, v, w, tag, 'example sa'):
+            return True
+    out.viol('wrong-subarray', tag, 'the example statement binds a value that is none of the subarrays')
+    return False
+
+
 def _execute(ctx, spec):
     import darr
     out = Outcome()
@@ -166,14 +178,18 @@ def _execute(ctx, spec):
         # ---- example statement: ordinal word, k value and index origin must agree and name an existing subarray
         m = re.search(r'(first|second|third)\s+\(k=(\d+)\)', code)
         if not m:
-            out.viol('example-comment-missing', lang, 'no "<ordinal> (k=N)" comment found')
-            return out
-        pos = ORD[m.group(1)]
-        kval = int(m.group(2))
-        if n >= 1 and (pos > n or kval != pos - 1 + origin):
+            out.cls('example-comment-not-located')      # reworded comment: the bound value is still checked against the subarrays
+            pos, kval = None, None
+        else:
+            pos = ORD[m.group(1)]
+            kval = int(m.group(2))
+        if pos is not None and n >= 1 and (pos > n or kval != pos - 1 + origin):
             out.viol('example-inconsistent', lang, f'comment says {m.group(1)} (k={kval}) for a ragged array of {n} subarrays in a {origin}-based language')
             return out
         # ---- run
+        if lang == 'darr' and "'path_to_data_dir'" not in code:
+            out.cls('darr-placeholder-not-located')
+            return out
         if lang in ('numpymemmap', 'darr'):
             src = code.replace("'path_to_data_dir'", repr(apath)) if lang == 'darr' else code
             try:
@@ -191,7 +207,7 @@ def _execute(ctx, spec):
             if 'sa' not in ns:
                 out.viol('example-does-not-bind', lang, 'sa is not bound')
                 return out
-            if not check_sub(out, None, np.asarray(ns['sa']), items[pos - 1], f'{lang}:example', 'example sa'):
+            if not check_example(out, None, np.asarray(ns['sa']), items, pos, f'{lang}:example'):
                 return out
             if lang == 'numpymemmap':
                 for k in range(n):
@@ -241,7 +257,7 @@ def _execute(ctx, spec):
         if 'sa' not in it.env or isinstance(it.env['sa'], Closure):
             out.viol('example-does-not-bind', lang, f'after running the program the variable sa is unbound\n{code[-300:]}')
             return out
-        if not check_sub(out, it, it.env['sa'], items[pos - 1], f'{lang}:example', 'example sa'):
+        if not check_example(out, it, it.env['sa'], items, pos, f'{lang}:example'):
             return out
         # accessor for every k
         try:
